@@ -135,7 +135,20 @@ func init() {
 			return []*seqProp{p, deepPhase(p, first, DqCore)}
 		}
 		mini := miniDeep(p, `{"a":{"x":1},"k":[0]}`)
-		return []*seqProp{p, mini}
+		// the package-level defaults (SupportNegativeIndices) through Apply AND ApplyIndent
+		defs := &seqProp{ID: "C01", UseDefaults: true, Docs: []string{Dq[2], Dq[10]}, Opts: optsNeg(defaultOpt), Depth: 2,
+			Alpha: []*AlphaCfg{{Values: v2, ReplValues: v1n}, {Values: v1n, ReplValues: v1n, Kinds: kinds("add", "remove", "test"), MaxFroms: 4}},
+			Judge: func(r *seqRun) {
+				if !judgeResult(r, false) || r.obs.Panic != "" || r.obs.DecodeErr != "" {
+					return
+				}
+				oi := r.exec(" ")
+				if oi.Panic == "" && (oi.Err == "") != (r.obs.Err == "") {
+					r.viol("indent-variant-differs", "indent-variant-differs:"+r.lastKind(), fmt.Sprintf("package defaults: Apply err=%q, ApplyIndent err=%q out=%q", r.obs.Err, oi.Err, oi.Out))
+				}
+			},
+			Rule: "package-level defaults (SupportNegativeIndices on/off set through the package variable) through Apply and ApplyIndent on two array documents, depth 2: reference result, and ApplyIndent succeeds exactly when Apply does"}
+		return []*seqProp{p, mini, defs}
 	}, 150*time.Second, 25*time.Minute)
 }
 
@@ -325,7 +338,20 @@ func init() {
 		}
 		// a small depth-3 phase on every change (it finds the copied-null defect of the legacy package)
 		mini := miniDeep(p, `{"a":{"x":1},"k":[0]}`)
-		return []*seqProp{p, mini}
+		// the package-level defaults (SupportNegativeIndices) through Apply AND ApplyIndent
+		defs := &seqProp{ID: "C01", UseDefaults: true, Docs: []string{Dq[2], Dq[10]}, Opts: optsNeg(defaultOpt), Depth: 2,
+			Alpha: []*AlphaCfg{{Values: v2, ReplValues: v1n}, {Values: v1n, ReplValues: v1n, Kinds: kinds("add", "remove", "test"), MaxFroms: 4}},
+			Judge: func(r *seqRun) {
+				if !judgeResult(r, false) || r.obs.Panic != "" || r.obs.DecodeErr != "" {
+					return
+				}
+				oi := r.exec(" ")
+				if oi.Panic == "" && (oi.Err == "") != (r.obs.Err == "") {
+					r.viol("indent-variant-differs", "indent-variant-differs:"+r.lastKind(), fmt.Sprintf("package defaults: Apply err=%q, ApplyIndent err=%q out=%q", r.obs.Err, oi.Err, oi.Out))
+				}
+			},
+			Rule: "package-level defaults (SupportNegativeIndices on/off set through the package variable) through Apply and ApplyIndent on two array documents, depth 2: reference result, and ApplyIndent succeeds exactly when Apply does"}
+		return []*seqProp{p, mini, defs}
 	}, 150*time.Second, 25*time.Minute)
 }
 
